@@ -57,8 +57,53 @@ def showMerged (m : Sheets.Msg) : String :=
   let sorted := mp.toArray.qsort (· < ·) |>.toList
   "ok map[" ++ ",".intercalate sorted ++ "] list[" ++ ",".intercalate ls ++ "]"
 
+/-! ### c11.spec <m|s|S> <container> <specifiers> <main rows> <books>
+  specifiers: `g` | `b<i>` | `s<i>/<Sheet>` joined by `,`;  rows: `<id>:<name>` joined by `.`;
+  book: `<Sheet>=<rows>` joined by `&`;  books joined by `;` (Part1, Part2, …) -/
+
+def decRows (s : String) : List MRow :=
+  if s.isEmpty then [] else (s.splitOn ".").filterMap fun rs =>
+    match rs.splitOn ":" with
+    | [id, name] => some { id := id, name := name }
+    | _ => none
+
+def decSpecifier? (s : String) : Option Sheets.Specifier :=
+  if s == "g" then some .glob
+  else if s.startsWith "b" then (decNat? (s.drop 1).toString).map fun i => .book (i - 1)
+  else if s.startsWith "s" then
+    match (s.drop 1).toString.splitOn "/" with
+    | [i, name] => (decNat? i).map fun i => .sheet (i - 1) name
+    | _ => none
+  else none
+
+def decBooks (s : String) : List (List (String × List MRow)) :=
+  if s.isEmpty then [] else (s.splitOn ";").map fun b =>
+    (b.splitOn "&").filterMap fun sh =>
+      match sh.splitOn "=" with
+      | [name, rows] => some (name, decRows rows)
+      | _ => none
+
+def showFile (name : String) (rows : List MRow) : String :=
+  let es := (rows.map (fun r => r.id ++ "=" ++ r.name)).toArray.qsort (· < ·) |>.toList
+  name ++ "{" ++ ",".intercalate es ++ "}"
+
+/-- the files a Merger / Scatter sheet `Conf` of book `Main` must produce, sorted by name -/
+def specExpected (kind : String) (specs : List Sheets.Specifier) (main : List MRow) (books : List (List (String × List MRow))) : String :=
+  let files : List String :=
+    if kind == "m" then [showFile "Conf" (Sheets.mergedRows main books "Conf" specs)]
+    else (Sheets.scatteredFiles main books "Conf" specs).map fun f =>
+      let book := match f.1 with | none => "Main" | some i => s!"Part{i + 1}"
+      showFile (if kind == "S" then f.2.1 else book ++ "_" ++ f.2.1) f.2.2
+  "ok " ++ ";".intercalate (files.toArray.qsort (· < ·) |>.toList)
+
 def c11 (fn : String) (a : List String) : Option String := do
   match fn, a with
+  | "c11.spec", [kind, _, specs, main, books] =>
+    let sp ← (if specs.isEmpty then some [] else (specs.splitOn ",").mapM decSpecifier?)
+    some (specExpected kind sp (decRows main) (decBooks books))
+  | "o.c11.spec", [kind, _, specs, main, books, obs] =>
+    let sp ← (if specs.isEmpty then some [] else (specs.splitOn ",").mapM decSpecifier?)
+    some (if obs == specExpected kind sp (decRows main) (decBooks books) then "holds" else "FAILS")
   | "c11.merge", [shape, nbooks, parts, dup] =>
     let books ← decMergeCase? nbooks parts dup
     let fields := mergeFields shape
